@@ -8,7 +8,7 @@ LEVEL = dict(
     rule_text="keys the outline reader requires ⊆ keys the outline writer sets; the action type written ∈ the set the reader accepts; D "
               "is written as a 2-element array and read by index 0/1; title codec agreement (FE FF + big-endian units produced by "
               "encode_utf16, i.e. with surrogate pairs; reader tests FE FF and assembles big-endian); Next/Prev are set as a pair and "
-              "Parent/First/Last/Count on every level; the zero-page fix-up walks every child list regardless of page state",
+              "Parent/First/Last/Count on every level; the zero-page fix-up walks every child list regardless of page state; the escape decision of write_string (titles are literal or hex strings) is order-insensitive; build_outline numbers its objects from a counter that starts at max_id and is only incremented (data flow)",
     explanation="Decides link/key/codec agreement between build_outline and get_toc. Does not decide link consistency of a whole "
                 "forest, order or page numbers.",
     trusted_base=["rustc MIR and callee resolution"],
